@@ -14,10 +14,10 @@ RULE = (
     "Hypothesis-generated closed-form counting families (A: 1-3 bins, C: on/off) whose six CLs curves "
     "cross the level inside the POI bounds x data x level log-uniform in (0.001, 0.5) x {automatic "
     "toms748 scan, linear grid scans of generated range/spacing} x forwarded options (test_stat, "
-    "calc_base_dist) x return_results, plus the deprecated alias. Oracles: hypotest evaluated by the check "
+    "calc_base_dist, par_bounds with a POI range other than the suggested one) x return_results, plus the deprecated alias. Oracles: hypotest evaluated by the check "
     "at limit*(1-+eps) brackets the *passed* level for the observed and the five expected curves; limit "
     "equals the root of the closed-form CLs curve; grid limits lie in the cell whose stored results "
-    "straddle the level; expected limits ordered; returned per-point results equal fresh hypotest calls. "
+    "straddle the level; expected limits ordered; every returned per-point result equals a fresh hypotest call with the forwarded options (relative 1e-6). "
     "Non-trivial: level != 0.05, a grid that does not contain the limit as a node, or a non-default "
     "forwarded option; distinct by (family, data, level, mode, options)."
 )
